@@ -17,6 +17,12 @@ T = {
  "C18": ("TLC model of the sampler on the lattice (MC_Sampler) + trace validation of real random_angles draws by TLC (Trace_Limits)",
          "Every lattice offset of the specified sampler is on the arc (model); each real draw is one trace event whose arc membership TLC evaluates, for every lattice (from,to) in +-2pi and random sets.",
          "thread_rng outcomes are sampled (several draws per constraint set), not enumerated.", "4/C18"),
+ "C03": ("TLC model of the OPW link chain, one action per joint, exact integer poses (Gen_Chain) replayed into forward/forward_with_joint_poses + TLC-judged trace of random robots (Trace_Chain)",
+         "TLC builds every chain of lattice angles with exact rational link poses and checks proper rotations and link offsets on the model; each chain is replayed into both FK functions under several sign/offset/whole-turn conventions (1e-9), plus prefix-dependence probes; random real robots are judged from oracle facts by the trace spec.",
+         "Lattice agreement pins the closed form because every FK entry is multilinear in (sin q_i, cos q_i); the float oracle used off-lattice is itself replayed against the exact model in the same run.", "4/C03"),
+ "C09": ("TLC model of wrapper stacks, one Wrap action per layer with exact composed poses (Gen_Stack, MC_Stack) replayed around a recording leaf (delegation matrix) and around the real solver",
+         "Every stack up to the depth bound over non-commuting lattice isometries is enumerated by TLC with the exact forward pose, link poses and expected leaf entry; the harness replays all entry points and compares which leaf method is reached, with which pose/previous/J6, and maps real answers back through an independent stack forward.",
+         "5-DOF clauses only for axial tools/frames; isometries are the six lattice choices of Gen_Stack (translation, quarter turn, generic rotations).", "4/C09"),
 }
 
 REASON_TODO = "check not built yet in this round (planned, see DESIGN.md section 9); not claimed until it runs"
